@@ -408,3 +408,25 @@ Proof.
   destruct (segment_generic head its _ b pos0 (Some tx) Hh K1 K3 K4 Hb) as (st & E & El & Er).
   exists st. split; [exact E|]. split; [rewrite El; exact K5|]. rewrite Er. rewrite flat_map_concat_map. reflexivity.
 Qed.
+
+(* ------------------------------------------------------------------ mixed data modes in one fragment: refuted *)
+(* AddSample (metadata only, the caller writes 2 bytes after the fragment) followed by AddFullSample (3 bytes in the
+   mdat): Fragment.Encode succeeds, but the mdat header announces 2 payload bytes while 3 + 2 bytes follow it: the
+   stream is not a sequence of boxes any more.  And when the sizes happen to frame (the interval form: data parts are
+   written, later full data is not), the samples read back differ from the ones added.  Known finding C05-F8. *)
+Lemma mixed_modes_refuted :
+  (exists ops fr fe lz,
+     run_ops (create_fragment 1) ops = ([COk; COk], Some fr) /\ encode_frag false fr = Ok fe /\
+     lenN lz = 2 /\ item_framed (mkEitem [] fe [] lz []) = false) /\
+  (exists ops fr fe,
+     run_ops (create_fragment 1) ops = ([COk; COk], Some fr) /\ encode_frag false fr = Ok fe /\
+     item_framed (mkEitem [] fe [] [] []) = true /\
+     seg_get_full (item_dfr 0 (mkEitem [] fe [] [] [])) None <> Ok [mkFull (mkSample 0 10 2 0) 0 [1; 2]; mkFull (mkSample 0 10 3 0) 10 [7; 8; 9]]).
+Proof.
+  split.
+  - exists [OMeta (mkSample 0 10 2 0) 0; OFull (mkSample 0 10 3 0) 10 [7; 8; 9]]. eexists; eexists; exists [1; 2].
+    split; [vm_compute; reflexivity|]. split; [vm_compute; reflexivity|]. split; vm_compute; reflexivity.
+  - exists [OInterval 0 [mkSample 0 10 2 0] [1; 2]; OFull (mkSample 0 10 3 0) 10 [7; 8; 9]]. eexists; eexists.
+    split; [vm_compute; reflexivity|]. split; [vm_compute; reflexivity|]. split; [vm_compute; reflexivity|].
+    vm_compute. discriminate.
+Qed.
